@@ -9,12 +9,14 @@ CONSTANTS
   MaxBatch = 3
   MaxCancel = 2
   MaxDue = 2
+  MaxSlow = 1
   MaxSendFail = 1
   SendHops = 4
   SkipDoneFutures = TRUE
   GuardSetException = TRUE
   AllFieldMatchers = TRUE
   TicketBeforeRegister = TRUE
+  LiveListAtCompletion = TRUE
 INVARIANT TypeOK
 INVARIANT OnlyMatching
 INVARIANT FirstMatching
